@@ -27,6 +27,7 @@ class Dom(object):
         self.nob = 0
         self.bad = {}
         self.record = True
+        self.d4 = {}
         self.inf = set()        # names whose current value was derived from the overflow threshold (the infinite cost)
 
     # ---- keys
@@ -155,6 +156,21 @@ class Dom(object):
                     self.inf.discard(key)
         return d
 
+    def d4_check(self, x):
+        """where a magnitude is exactly zero its logarithm does not exist: the slot then receives the infinite cost"""
+        if len(x.c) < 3 or x.c[2] is None:
+            return
+        c = strip(x.c[0])
+        if not (c.k == 'Binary' and c.a['op'] == '!=' and any(strip(y).k == 'Float' and strip(y).a.get('value') == 0.0 for y in c.c)):
+            return
+        logs = [a for a in x.c[1].walk() if a.k == 'Assign' and a.a['op'] == '=' and any(y.k == 'Call' and callee_name(y) in ('log', 'logf') for y in a.c[1].walk())]
+        if not logs:
+            return
+        key = self.key(logs[0].c[0])
+        els = [a for a in x.c[2].walk() if a.k == 'Assign' and self.key(a.c[0]) == key]
+        okk = bool(els) and all(any(y.k == 'Ref' and (y.a.get('name') == 'rinf' or y.a.get('name') in self.inf) for y in a.c[1].walk()) for a in els)
+        self.d4[(x.line, key)] = (okk, x, logs[0], els)
+
     # ---- statements
     def run(self, s):
         k = s.k
@@ -163,13 +179,18 @@ class Dom(object):
                 self.run(c)
         elif k == 'If':
             self.ev(s.c[0])
+            self.d4_check(s)
             base = dict(self.st)
+            inf0 = set(self.inf)
             self.run(s.c[1])
             a = self.st
+            inf_a = set(self.inf)
             self.st = dict(base)
+            self.inf = set(inf0)
             if len(s.c) > 2 and s.c[2] is not None:
                 self.run(s.c[2])
             b = self.st
+            self.inf = inf_a & self.inf          # derived from the overflow threshold on every path
             self.st = {key: (a.get(key, ANY) if a.get(key, ANY) != ANY else b.get(key, ANY)) for key in set(a) | set(b)}
             for key in set(a) & set(b):
                 if {a[key], b[key]} == {LIN, LOG}:
@@ -237,9 +258,13 @@ def run(chk, cid, prog, cfgname):
         raise AnalysisBroken('mc64ad_: the `*job == 5` block was not found')
     d = Dom(chk, cid, f, cfgname)
     d.cost = None
-    d.run(f.body)
-    d.inf_ever = set(d.inf)
-    d.bad.clear(); d.nob = 0; d.st = {}; d.cost = None
+    # names that hold the infinite cost when the job-5 block is entered (assigned before it on the straight-line path)
+    for st_ in f.body.c:
+        if any(y is blk for y in st_.walk()):
+            break
+        if st_.k not in ('If', 'For', 'While'):
+            d.run(st_)
+    d.bad.clear(); d.nob = 0; d.st = {}; d.cost = None; d.d4 = {}
     d.run(blk)
     if d.nob < 12 or d.cost is None:
         raise AnalysisBroken('mc64ad_ job 5: only %d domain obligations met / mc64wd_ call not seen; the block has changed shape' % d.nob)
@@ -253,28 +278,17 @@ def run(chk, cid, prog, cfgname):
     for (line, what), node in sorted(d.bad.items())[:4]:
         chk.violate(cid, 'mc64ad_:job5:%s' % ('empty-marker-on-logarithm' if 'empty marker' in what else 'domains-mixed:' + pretty(node)[:30].replace(' ', '')),
                     loc(f, node), 'mc64ad_', what, cfgname=cfgname)
-    # D4: where a magnitude is exactly zero its logarithm does not exist; the slot must then receive the infinite cost (derived from rinf),
-    # otherwise a stored zero competes with the real entries for a place on the diagonal
-    for x in blk.walk():
-        if x.k != 'If' or len(x.c) < 3 or x.c[2] is None:
-            continue
-        c = strip(x.c[0])
-        if not (c.k == 'Binary' and c.a['op'] == '!=' and any(strip(y).k == 'Float' and strip(y).a.get('value') == 0.0 for y in c.c)):
-            continue
-        logs = [a for a in x.c[1].walk() if a.k == 'Assign' and a.a['op'] == '=' and any(y.k == 'Call' and callee_name(y) in ('log', 'logf') for y in a.c[1].walk())]
-        if not logs:
-            continue
-        key = d.key(logs[0].c[0])
-        els = [a for a in x.c[2].walk() if a.k == 'Assign' and d.key(a.c[0]) == key]
+    # D4 (decided in-flow, see Dom.d4_check): a zero magnitude receives a value derived from the overflow threshold
+    for (line, key), (okk, x, lg, els) in sorted(d.d4.items()):
         n += 1
         inst = 'mc64ad_:job5:zero-magnitude-gets-the-infinite-cost:%s' % key
-        if els and all(any(y.k == 'Ref' and (y.a.get('name') == 'rinf' or y.a.get('name') in d.inf_ever) for y in a.c[1].walk()) for a in els):
-            chk.ok(cid, inst, sample='`%s` / else `%s`' % (pretty(logs[0])[:40], pretty(els[0])[:30]))
+        if okk:
+            chk.ok(cid, inst, sample='`%s` / else `%s`' % (pretty(lg)[:40], pretty(els[0])[:30]))
         else:
             chk.violate(cid, inst, loc(f, els[0] if els else x), 'mc64ad_',
                         'when `%s` fails the magnitude is exactly zero and has no logarithm; the else side must give `%s` the infinite cost (rinf / n), but it %s: '
                         'a stored zero then looks like an entry of ordinary size and can be matched onto the diagonal'
-                        % (pretty(c)[:40], pretty(logs[0].c[0])[:30], ('does `%s`' % pretty(els[0])[:40]) if els else 'assigns nothing'), cfgname=cfgname)
+                        % (pretty(strip(x.c[0]))[:40], pretty(lg.c[0])[:30], ('does `%s`' % pretty(els[0])[:40]) if els else 'assigns nothing'), cfgname=cfgname)
     for key, nm in (('dw#0', 'u = dw[1..n]'), ('dw#1', 'v = dw[n+1..2n]')):
         n += 1
         inst = 'mc64ad_:job5:dual-is-logarithmic:%s' % key
